@@ -80,6 +80,7 @@ remaps:
   'C(C)(H)3': [[1, 'CH3']]
   'C(H)3(O)': [[0.5, 'CH3'], [2, 'OX']]
   'O(C)(H)': [[1, 'OX']]
+  'O(C)2': [[1, 'OX'], [-2, 'CH3']]
   'Ring3': [[0.5, 'Strain'], [0.5, 'C(C)2(H)2']]
 other_descriptors:
   - name: Ring3
@@ -92,8 +93,9 @@ other_descriptors:
     connectivity: 'fragment a{ C labeled c1 O labeled o1 single bond to c1 O labeled o2 single bond to c1}'
 """
 # (the last pattern names the same centre as the first: an atom both describe has no unique description)
-SYNTH_MOLS = ['CC', 'CO', 'CCO', 'CC=O', 'C1CC1', 'OCO', 'CC(=O)C', 'OC1CC1', 'CCC', 'C=C', 'COC', 'OC(O)C', 'CC(O)CO',
+SYNTH_MOLS = ['COC', 'COCC', 'CC', 'CO', 'CCO', 'CC=O', 'C1CC1', 'OCO', 'CC(=O)C', 'OC1CC1', 'CCC', 'C=C', 'COC', 'OC(O)C', 'CC(O)CO',
               'CC(C)C', 'CC(C)(C)O']
+# (the remap of O(C)2 has a negative coefficient: dimethyl ether nets CH3 = 1 - 2, ethyl methyl ether -1/2)
 
 
 def check_pairs(ctx, names, scheme_jsons, cases, report):
